@@ -21,7 +21,8 @@ def handle (c obs : String) : String × Bool × String :=
   match parseCase c with
   | none => ("bad-case", false, "unparsable case")
   | some (p, rs) =>
-    let model := modelText p rs
+    if (Spec.eval p).isNone then (obs, true, "") else
+    let model := agreeOr { } (modelText p rs) obs
     match parseObs obs, Spec.eval p with
     | some os, some l => let (ok, why) := check l rs os 0; (model, ok, why)
     | some _, none => (model, true, "")
